@@ -856,6 +856,10 @@ def run(ctx):
            "start vertex": "every vertex", "words": "all words over the label set, length 0..%d" % Lw}
     ctx.product("walks-and-enumerators", "checks.c10:case_walk", automaton_cases(sizes, routes, Lw),
                 domains=dom, chunk=32)
+    if not q:
+        ctx.product("walks-3-states-3-labels", "checks.c10:case_walk", automaton_cases([(3, abc)], ["graph"], 3),
+                    domains={"(states, labels)": [[3, 3]], "routes": ["graph"], "start vertex": "every vertex",
+                             "words": "all words over the label set, length 0..3"}, chunk=256)
     dom2 = dict(dom)
     dom2.update({"words": "length 0..%d (multiples: at least 2 chunks)" % Lo, "k": [1, 2, 3, 4, "even"],
                  "relabellings": "every injective map into {a,b,c}", "roots": "every vertex and the default",
